@@ -113,7 +113,7 @@ def stdlib_table():
             "itertools": {n: getattr(itertools, n) for n in ("count", "repeat", "cycle", "starmap", "accumulate", "groupby", "islice", "product", "permutations", "combinations",
                                                              "combinations_with_replacement", "zip_longest", "takewhile", "dropwhile", "tee", "compress", "filterfalse")},
             "functools": {"reduce": functools.reduce, "partial": functools.partial, "lru_cache": m_lru_cache, "cache": m_lru_cache, "wraps": m_wraps, "cached_property": (lambda f: f),
-                          "total_ordering": (lambda c: c), "singledispatch": m_singledispatch},
+                          "total_ordering": (lambda c: c), "singledispatch": m_singledispatch, "partialmethod": m_partialmethod},
             "contextlib": {"contextmanager": m_contextmanager, "suppress": MSuppress, "nullcontext": (lambda x=None: MContextManager(iter([x]))), "ExitStack": MExitStack, "closing": (lambda x: MContextManager(iter([x])))},
             "textwrap": {"dedent": __import__("textwrap").dedent, "indent": __import__("textwrap").indent},
             "types": {"MappingProxyType": (lambda d: dict(d)), "SimpleNamespace": NS},
@@ -249,6 +249,23 @@ def m_signature(fn, **_kw):
     if skip_first and ps:
         ps = ps[1:]
     return MSignature(_inspect.Signature(ps))
+
+
+def m_partialmethod(func, *bound, **bound_kw):
+    """functools.partialmethod in a class body: a method of the instances that calls `func(self, *bound, *args, **bound_kw, **kw)`."""
+    from .userclass import _Method
+
+    if isinstance(func, MethodOfClassUnderDecoration):
+        return InstalledPartialMethod(func.name, bound, bound_kw)
+    inner = func.clo if isinstance(func, _Method) else func
+    if not callable(inner):
+        raise Unsupported("functools.partialmethod over a value that is not a function of the evaluated code")
+
+    def call(self_, *a, **k):
+        return inner(self_, *bound, *a, **{**bound_kw, **k})
+
+    call.__name__ = getattr(inner, "__name__", "partialmethod")
+    return _Method("plain", call)
 
 
 def bind_stdlib_imports(tree, env):
@@ -815,6 +832,93 @@ class MDeque(Model):
         return self._d[i]
 
 
+class MethodOfClassUnderDecoration:
+    """`cls._prunable` read by a class decorator while it runs: the (not yet bound) method of that name."""
+
+    def __init__(self, name):
+        self.name = name
+
+
+class InstalledPartialMethod:
+    """`partialmethod(cls._prunable, stage=..., loads=...)` stored on the class by a class decorator."""
+
+    def __init__(self, name, bound, bound_kw):
+        self.name, self.bound, self.bound_kw = name, bound, bound_kw
+
+
+class ClassUnderDecoration(Model):
+    """A class of the repository (Circuit, BlackBox, a mixin) as a class decorator of the package sees it: reads of its methods
+    give placeholders, `setattr(cls, name, value)` / `cls.name = value` are recorded - the evaluator's instances of the class
+    then find what was installed."""
+
+    _allow_private = True
+
+    def __init__(self, rel, cls):
+        d = object.__getattribute__(self, "__dict__")
+        d["_cud_rel"], d["_cud_cls"], d["_cud_installed"] = rel, cls, {}
+        d["__name__"] = d["__qualname__"] = cls
+
+    def __getattr__(self, name):
+        d = object.__getattribute__(self, "__dict__")
+        if name in d["_cud_installed"]:
+            return d["_cud_installed"][name]
+        return MethodOfClassUnderDecoration(name)
+
+    def __setattr__(self, name, value):
+        object.__getattribute__(self, "__dict__")["_cud_installed"][name] = value
+
+
+def installed_by_decorators(pkg, rel, cls):
+    """{name: value} a class decorator of the package stores on the repository class `cls` when its class statement runs (methods
+    made with partialmethod, functions, constants); {} for an undecorated class.  The decorators of the classes it inherits from
+    are run as well (what they install is inherited)."""
+    key = ("_installed", rel, cls)
+    if key in pkg._method_closures:
+        return pkg._method_closures[key]
+    out = {}
+    pkg._method_closures[key] = out
+    from .minieval import MiniEval
+
+    for (r_, c_) in reversed(pkg.repo.class_mro.get((rel, cls), [(rel, cls)])):
+        cdef = pkg.repo.classes.get((r_, c_))
+        if cdef is None or not cdef.decorator_list:
+            continue
+        proxy = ClassUnderDecoration(r_, c_)
+        ev = MiniEval(pkg.env(r_)).ev
+        for dec in reversed(cdef.decorator_list):
+            dname = ast.unparse(dec.func if isinstance(dec, ast.Call) else dec).split(".")[-1]
+            if dname in ("dataclass", "total_ordering", "final", "runtime_checkable"):
+                continue
+            fn = ev(dec)
+            if not callable(fn):
+                raise Unsupported(f"class decorator {ast.unparse(dec)[:50]} on {c_}")
+            got = fn(proxy)
+            if got is not proxy:
+                raise Unsupported(f"class decorator {ast.unparse(dec)[:50]} on {c_} does not return the class it was given")
+        out.update(object.__getattribute__(proxy, "__dict__")["_cud_installed"])
+    return out
+
+
+def bind_installed(value, get_method, obj):
+    """What `obj.name` gives for a value a class decorator stored on obj's class."""
+    if isinstance(value, InstalledPartialMethod):
+        inner = get_method(value.name)
+        return lambda *a, **k: inner(*value.bound, *a, **{**value.bound_kw, **k})
+    if isinstance(value, MethodOfClassUnderDecoration):
+        return get_method(value.name)  # `cls.alias = cls.method`
+    if hasattr(value, "_cg_fdef"):
+        return lambda *a, **k: value(obj, *a, **k)  # a function stored on the class is a method of its instances
+    from .userclass import _Method
+
+    if isinstance(value, _Method):
+        if value.kind == "static":
+            return value.clo
+        if value.kind == "property":
+            return value.clo(obj)
+        return lambda *a, **k: value.clo(obj, *a, **k)
+    return value
+
+
 class RepoInstance(Model):
     """Instance of a class *defined by the repository*: attributes are stored on the object, every method
     (dunder methods included) is a closure evaluated from the class's source."""
@@ -867,6 +971,9 @@ class RepoInstance(Model):
                 from .userclass import apply_descriptor
 
                 return apply_descriptor(pkg._method_closures[ckey], self, repo_class(pkg, rel, cls))
+            installed = installed_by_decorators(pkg, own_rel, own_cls)
+            if name in installed:
+                return bind_installed(installed[name], self.__getattr__, self)
             raise AttributeError(name)
         clo = pkg.method_closure(rel, f"{cls}.{name}")
         bound = bind_with_decorators(pkg.repo.funcs[key].node, clo, self)
@@ -1026,6 +1133,30 @@ class Package:
     def bound_repo_method(self, obj, name):
         """A method that circuit.py's class defines although the reference model lacks it, bound to the model object."""
         cls = getattr(type(obj), "_repo_class", None)
+        if cls is not None and ("circuit.py", f"{cls}.{name}") not in self.repo.funcs and ("circuit.py", cls) in self.repo.classes:
+            # `_check_sinks = partialmethod(_check_ends, table=...)` in the class body: a method made from another one
+            for st in self.repo.classes[("circuit.py", cls)].body:
+                v = st.value if isinstance(st, ast.Assign) and len(st.targets) == 1 and isinstance(st.targets[0], ast.Name) and st.targets[0].id == name else None
+                if isinstance(v, ast.Call) and ast.unparse(v.func).split(".")[-1] == "partialmethod" and v.args and isinstance(v.args[0], ast.Name):
+                    inner = self.bound_repo_method(obj, v.args[0].id)
+                    if inner is None:
+                        return None
+                    from .minieval import MiniEval
+
+                    ev = MiniEval(self.env("circuit.py")).ev
+                    pre = [ev(a) for a in v.args[1:]]
+                    prek = {k.arg: ev(k.value) for k in v.keywords if k.arg}
+                    return lambda *a, **k: inner(*pre, *a, **{**prek, **k})
+        if cls is not None and ("circuit.py", f"{cls}.{name}") not in self.repo.funcs and ("circuit.py", cls) in self.repo.classes:
+            installed = installed_by_decorators(self, "circuit.py", cls)
+            if name in installed:
+                def get_method(nm_):
+                    m_ = self.bound_repo_method(obj, nm_)
+                    if m_ is None:
+                        raise Unsupported(f"method {nm_} of {cls} that a class decorator refers to")
+                    return m_
+
+                return bind_installed(installed[name], get_method, obj)
         if cls is None or ("circuit.py", f"{cls}.{name}") not in self.repo.funcs:
             return None
         fi = self.repo.funcs[("circuit.py", f"{cls}.{name}")]
